@@ -94,6 +94,7 @@ fn main() {
             "--input" => {
                 let m = parse_flat(&args[i + 1]);
                 if m.contains_key("stale_output") { std::env::set_var("VERIF_STALE_OUTPUT", "1"); }
+                if m.contains_key("input_gzm") { std::env::set_var("VERIF_INPUT_GZM", "1"); }
                 o.input = Some(m); i += 1;
             }
             _ => {}
